@@ -25,9 +25,19 @@ THEOREMS = [
     ("Anytree.Props.C03.K1_state", "partial"),
     ("Anytree.Props.C03.setParent_no_assertion", "partial"),
     ("Anytree.Props.C03.C03_partial_setChildren_checks", "partial"),
+    ("Anytree.Props.C03.C03_partial_delChildren", "partial"),
+    ("Anytree.Props.C03.C03_partial_setChildren_delete_phase", "partial"),
+    ("Anytree.Props.C03.delete_loop_errors", "partial"),
+    ("Anytree.Props.C03.K4_persistent_preAttachChildren_diverges", "witness"),
+    ("Anytree.Props.C03.K4_state", "witness"),
+    ("Anytree.K4_witness", "witness"),
 ]
-NOT_COVERED = ["C03_full is false of the unchanged code (C03_full_false); what is proved is C03_partial, whose hypotheses "
-               "are the complements of the finding classes K1-K4"]
+NOT_COVERED = ["C03_full is false of the unchanged code (C03_full_false); what is proved are the C03_partial_* theorems "
+               "(parent assignment; children deletion; argument checks and delete phase of children assignment), whose "
+               "hypotheses are the complements of the finding classes K1/K2. The attach phase of a children assignment "
+               "(vetoed by _pre_attach_children or a per-child pre hook, or refused with LoopError, with no foreign-parent "
+               "element processed and no further fault during the restore: not-K3 and not-K4) is NOT proved unchanged in Lean; "
+               "it is covered by the fault enumeration of the correspondence run only"]
 PREDICATE_SPEC = True
 KNOWN_IDS = set()
 KNOWN_HITS = {}
